@@ -115,9 +115,9 @@ class C05(Property):
         self.rng.shuffle(sel)
         rank = {ci: r for r, ci in enumerate(sel)}
         for i, cfg in enumerate(cfgs):
-            # quick: every configuration with the plain body and every single fault; a seeded sixth of
+            # quick: every configuration with the plain body and every single fault; a seeded third of
             # them also with the other bodies and the "destination appears" positions
-            rich = full or rank[i] % 6 == 0
+            rich = full or rank[i] % 3 == 0
             for bi, (writes, raises) in enumerate(self.BODIES if rich else self.BODIES[:1]):
                 base = dict(cfg, writes=writes, raises=raises)
                 for c in self.with_plans(base, appear=rich, alt=full, pairs=full and bi == 0):
